@@ -817,9 +817,12 @@ class Emitter:
         self.used_cnames = set()
         self.redirect = {}
         self.redirect_self = {}     # old -> new, only for (recursive) calls from within `old` itself
+        self.redirect_cdns = {}     # old -> new, only for calls made from c-dns code (namespace CDNS), not from the harness
         for old, new in (opts.redirect or []):
             if new.endswith('@self'):
                 self.redirect_self[old] = new[:-5]
+            elif new.endswith('@cdns'):
+                self.redirect_cdns[old] = new[:-5]
             else:
                 self.redirect[old] = new
         self.size_cache = {}
@@ -1946,6 +1949,8 @@ class FuncEmitter:
             tname = em.redirect.get(name, name)
             if name in em.redirect_self and self.f.name == name:
                 tname = em.redirect_self[name]
+            if name in em.redirect_cdns and self.f.name.startswith(('_ZN4CDNS', '_ZNK4CDNS')):
+                tname = em.redirect_cdns[name]
             f = em.m.funcs.get(tname) or em.m.funcs.get(name)
             argv = []
             for k, x in enumerate(args):
